@@ -41,9 +41,19 @@ MinOf(S) == CHOOSE m \in S : \A n \in S : m <= n
 RECURSIVE PrefEnd(_, _, _)
 PrefEnd(s, i, dig) == IF i > Len(s) \/ IsDigit(s[i]) # dig THEN i - 1 ELSE PrefEnd(s, i + 1, dig)
 
-\* numeric value of a digit string; the empty string counts as 0 (Debian policy)
-RECURSIVE Val(_)
-Val(d) == IF d = <<>> THEN 0 ELSE 10 * Val(SubSeq(d, 1, Len(d) - 1)) + (d[Len(d)] - 48)
+\* A digit part is compared NUMERICALLY at arbitrary length (Debian policy; the empty string counts as 0):
+\* by construction no conversion to (32-bit) TLC integers -- strip leading zeros, then the longer digit
+\* string is the larger number, equal lengths compare digit by digit.
+RECURSIVE StripZeros(_)
+StripZeros(d) == IF d # <<>> /\ d[1] = 48 THEN StripZeros(SubSeq(d, 2, Len(d))) ELSE d
+RECURSIVE CmpDigits(_, _, _)
+CmpDigits(x, y, i) == IF i > Len(x) THEN 0
+                      ELSE IF x[i] # y[i] THEN (IF x[i] < y[i] THEN -1 ELSE 1)
+                      ELSE CmpDigits(x, y, i + 1)
+CmpNum(x, y) ==        \* x, y: digit strings without leading zeros (<<>> = 0)
+    IF x = y THEN 0
+    ELSE IF Len(x) # Len(y) THEN (IF Len(x) < Len(y) THEN -1 ELSE 1)
+    ELSE CmpDigits(x, y, 1)
 
 \* A string is a list of (non-digit part, digit part) pairs, first non-digit part possibly empty.
 RECURSIVE Parts(_)
@@ -51,10 +61,10 @@ Parts(s) ==
     IF s = <<>> THEN <<>>
     ELSE LET a == PrefEnd(s, 1, FALSE)
              b == PrefEnd(s, a + 1, TRUE)
-         IN  << [nd |-> [i \in 1..a |-> Order(s[i])], n |-> Val(SubSeq(s, a + 1, b))] >>
+         IN  << [nd |-> [i \in 1..a |-> Order(s[i])], n |-> StripZeros(SubSeq(s, a + 1, b))] >>
                  \o Parts(SubSeq(s, b + 1, Len(s)))
 
-NoPart == [nd |-> <<>>, n |-> 0]
+NoPart == [nd |-> <<>>, n |-> <<>>]
 
 \* lexical comparison of non-digit parts under Order; the shorter one is continued by a digit or
 \* by the end of the string, both of which have order 0
@@ -63,7 +73,7 @@ CmpND(x, y) ==
         D == {i \in 1..Max2(Len(x), Len(y)) : At(x, i) # At(y, i)}
     IN  IF D = {} THEN 0 ELSE LET i == MinOf(D) IN Sign(At(x, i) - At(y, i))
 
-CmpPart(p, q) == LET c == CmpND(p.nd, q.nd) IN IF c # 0 THEN c ELSE Sign(p.n - q.n)
+CmpPart(p, q) == LET c == CmpND(p.nd, q.nd) IN IF c # 0 THEN c ELSE CmpNum(p.n, q.n)
 
 CmpParts(P, Q) ==
     LET At(Z, i) == IF i <= Len(Z) THEN Z[i] ELSE NoPart
